@@ -192,6 +192,8 @@ class Interp:
             self.loads.append((n, b.hugr, st["ty"]))
             self.w[st["out"]] = n[0]
             return
+        # (every other constant is built from one-shot iterables: the helper constructors take any Iterable)
+        self.vb.one_shot = sum(map(ord, st["id"])) % 2 == 1
         v = self.vb.val(st["val"])
         parent = self.const_parent(b, st.get("const_parent", "here"))
         if st.get("via_node"):
